@@ -1059,6 +1059,8 @@ func (em *emitter) emitForRange(node *ast.ForRange) {
 
 	inForRange := em.inForRange
 	em.inForRange = true
+	breakable := em.breakable
+	em.breakable = false
 
 	em.fb.enterScope()
 
@@ -1136,6 +1138,7 @@ func (em *emitter) emitForRange(node *ast.ForRange) {
 	em.fb.exitScope()
 	em.fb.exitScope()
 	em.inForRange = inForRange
+	em.breakable = breakable
 
 	if node.Else != nil {
 		endForLabel := em.fb.newLabel()
